@@ -116,7 +116,17 @@ pub mod sym {
     pub fn prove(b: &Bool) -> Result<(), String> {
         with(|s| {
             s.n_checks += 1;
-            match s.solver.check_assumptions(&[b.not()]) {
+            // fresh, non-incremental solver: lets z3 use its nlsat-based QF_NRA strategy
+            let fresh = Solver::new();
+            let mut pp = z3::Params::new();
+            pp.set_u32("timeout", 20000);
+            fresh.set_params(&pp);
+            for a in s.solver.get_assertions() { fresh.assert(&a); }
+            fresh.assert(&b.not());
+            let res = fresh.check();
+            if res == SatResult::Sat { s.solver.push(); s.solver.assert(&b.not()); let _ = s.solver.check(); }
+            let res2 = res;
+            match res2 {
                 SatResult::Unsat => Ok(()),
                 SatResult::Sat => {
                     let m = s.solver.get_model().unwrap();
